@@ -31,6 +31,11 @@ fn hull_queries_dt<const D: usize>(h: &Hull<D>, dt: &tri::DtF<D>, p: &[f64; D]) 
         Some(fh) => match catch(|| h.is_facet_visible_from_point(&fh, &pt, tri).map(|_| ()).map_err(|e| format!("{e:?}"))) { Ok(Ok(())) => "ok".into(), Ok(Err(e)) => e, Err(m) => format!("panic{m}") },
         None => "ok".into(),
     }));
+    // the boolean form of the guard, and the guard after the hull's own cache was invalidated
+    // (the creation generation must survive `invalidate_cache`)
+    v.push(if h.is_valid_for_triangulation(tri) { "answer".into() } else { "stale".into() });
+    h.invalidate_cache();
+    v.push(cls(match catch(|| h.is_point_outside(&pt, tri).map(|_| ()).map_err(|e| format!("{e:?}"))) { Ok(Ok(())) => "ok".into(), Ok(Err(e)) => e, Err(m) => format!("panic{m}") }));
     v
 }
 
